@@ -129,7 +129,7 @@ def determineAddr (s : St) (name ty : String) (acl : List String) : Except Err A
   | none => (.error .badName, s1)
 
 /-- `Open` once the address has parsed: local-only check, manifest fetch, `createStore`.
-The state is returned unchanged (U1). -/
+The state is returned unchanged; `open` records the database afterwards (`record`). -/
 def openValid (s : St) (a : Addr) (o : Opts) : Except Err Out × St :=
   if o.localOnly && !haveLocal s a then (.error .notLocal, s) else
   match fetch s.net a.root with
@@ -159,6 +159,19 @@ def named (a : Addr) (m : Manifest) : Bool :=
   | some a' => print a' == print a
   | none => false
 
+/-- a store that came back from `Open` is recorded as existing locally (`addManifestToCache`, after the
+`fix:` commit, finding F53: only `Create` used to record it — a database obtained through `Open`,
+however fully replicated, was unknown to a later local-only `Open` and could be "created" again
+without overwrite) -/
+def record (a : Addr) (r : Except Err Out × St) : Except Err Out × St :=
+  match r.1 with
+  | .ok _ => (r.1, addLocal r.2 a)
+  | .error _ => r
+
+/-- the address as the cache key spells it: printed (that cleans the path) and parsed again (U10: the
+code finds a local copy by the cleaned key, whatever spelling the caller used) -/
+def canon (a : Addr) : Addr := (parse isCid (print a)).getD a
+
 /-- `Open(dbAddress, options)`. After the local-only refusal and the manifest fetch (`openValid` has
 both) an address whose path is not the name recorded in the manifest is refused (after the `fix:`
 commit, finding F52: `/orbitdb/<root>/anything` opened as a database of its own — its own log id,
@@ -169,8 +182,8 @@ def «open» (s : St) (addr : String) (o : Opts) : Except Err Out × St :=
     match fetch s.net a.root with
     | some m =>
       if !(o.localOnly && !haveLocal s a) && !named isCid a m then (.error .nameMismatch, s)
-      else openValid s a o
-    | none => openValid s a o
+      else record (canon isCid a) (openValid s a o)
+    | none => record (canon isCid a) (openValid s a o)
   | none =>
     if !o.create then (.error .createFalse, s)
     else if o.storeType == "" then (.error .noType, s)
